@@ -904,6 +904,34 @@ def pushes(line):
   return line.split()[0] in ("new", "wc", "mg", "mn")
 
 
+_REG_POS = {"sv": (1,), "sl": (1, 3), "sb": (1,), "wc": (1,), "mg": (1, 2), "mn": (1,), "ld": (1,), "gl": (1,)}
+
+
+def drop_unused_registers(lines, bad):
+  """Removes register-creating ops whose register is never used afterwards (renumbering the rest)."""
+  cur = list(lines)
+  i = len(cur) - 2
+  while i >= 0:
+    if i < len(cur) - 1 and pushes(cur[i]):
+      k = sum(1 for l in cur[:i] if pushes(l))
+      trial, ok = cur[:i], True
+      for l in cur[i + 1:]:
+        fields = l.split(" | ")
+        w = fields[0].split()
+        for pos in _REG_POS.get(w[0], ()):
+          if pos < len(w) and w[pos].isdigit():
+            r = int(w[pos])
+            if r == k:
+              ok = False
+            elif r > k:
+              w[pos] = str(r - 1)
+        trial.append(" | ".join([" ".join(w)] + fields[1:]))
+      if ok and bad(trial):
+        cur = trial
+    i -= 1
+  return cur
+
+
 def shrink(lines):
   """Smaller failing case: truncate after the first failure, drop non-pushing ops, neutralise
   pushing ops, simplify conditions."""
@@ -920,6 +948,7 @@ def shrink(lines):
       cur = cur[:k]
       break
   cur = common.ddmin(cur, bad, budget_s=15.0, keep=pushes)
+  cur = drop_unused_registers(cur, bad)
   t0 = time.time()
   changed = True
   while changed and time.time() - t0 < 15:
@@ -949,7 +978,7 @@ def shrink(lines):
           cur = trial
           changed = True
           break
-  return cur
+  return drop_unused_registers(cur, bad)
 
 
 def search(res, rng, disagreements, pfail):
